@@ -17,3 +17,8 @@ from pyvc.values import Real
 fs_mtime = z3.Function('fs_mtime', Str, Real)          # os.path.getmtime of an existing path
 fs_content = z3.Function('fs_content', Str, Str)       # text content of a readable file
 fs_eacces = z3.Function('fs_eacces', Str, Bool)        # opening the path fails with EACCES
+
+from pyvc.values import SeqS
+fs_isdir = z3.Function('fs_isdir', Str, Bool)          # os.path.isdir
+fs_listdir = z3.Function('fs_listdir', Str, SeqS)      # os.listdir of a directory: entry names
+pjoin = z3.Function('pjoin', Str, Str, Str)            # os.path.join(a, b)
